@@ -966,7 +966,11 @@ class CxxEvaluator(Evaluator):
                 return self.typed(e["op"], a, b, e.get("t"), e.get("ot"), e.get("rt"), e.get("l"))
             return self.binop(e["op"], a, b)
         if k == "cast":
-            return conv(self.eval(e["e"], env, this), e.get("t"))
+            v = self.eval(e["e"], env, this)
+            if e.get("ck") == "reinterpret" and hasattr(v, "reinterpret_as"):
+                # an abstract library object states itself what a reinterpretation of its storage reads (its first member)
+                return v.reinterpret_as(e.get("t"))
+            return conv(v, e.get("t"))
         if k == "asg":
             rhs = self.eval(e["rhs"], env, this)
             op = e["op"]
